@@ -1,4 +1,6 @@
 //! Shared generators: a deterministic pool of validator / node keys and committee specifications.
+pub mod certs;
+
 use std::sync::OnceLock;
 
 use proptest::prelude::*;
